@@ -115,8 +115,9 @@ class CategoricalBox:
 
     @levels.setter
     def levels(self, value):
-        if value is not None and set(value) != set(self.data):  # pragma: no cover
-            raise ValueError("The levels beign assigned and the levels in the data differ")
+        # That the levels match the data is checked when the design is built, see
+        # ``Call.eval_categorical_box``. A box is also created every time new data is evaluated,
+        # and a new data set does not need to contain all the levels.
         self._levels = value
 
 
